@@ -1,12 +1,17 @@
 #!/usr/bin/env python3
 """Runs the registered checks against the kept seeded changes (/verif/seeded/<id>/patch.diff).
-For each: git -C /repo apply, run every claimed check's quick command, record which ones report a VIOLATION
-(exit 1), undo with git -C /repo checkout -- . straight afterwards.  Writes seeded/RESULTS.json and updates
-meta.json 'caught_by'.  usage: seedtest.py [id ...]"""
+
+By default it works on a scratch git worktree of /repo's HEAD (outside /repo and /verif, removed afterwards), with
+SPX_REPO pointing there and the evidence of these scratch runs written to a scratch directory, so that /repo and
+/verif/evidence are never touched.  With --in-place it applies each patch to /repo itself (git -C /repo apply, run,
+git -C /repo checkout -- .) as the brief describes.  Writes seeded/RESULTS.json and updates meta.json 'caught_by'.
+usage: seedtest.py [--in-place] [id ...]"""
 import json
 import os
+import shutil
 import subprocess
 import sys
+import tempfile
 
 V = os.path.dirname(os.path.dirname(os.path.abspath(__file__)))
 
@@ -16,51 +21,73 @@ def sh(cmd, **kw):
 
 
 def main():
+    args = sys.argv[1:]
+    in_place = '--in-place' in args
+    args = [a for a in args if not a.startswith('--')]
     man = json.load(open(os.path.join(V, 'MANIFEST.json')))
     checks = [(c['property_id'], c['quick_cmd']) for c in man['checks']]
-    ids = sys.argv[1:] or sorted(d for d in os.listdir(os.path.join(V, 'seeded')) if os.path.isdir(os.path.join(V, 'seeded', d)))
-    dirty = sh('git -C /repo status --porcelain --untracked-files=no').stdout.strip()
-    if dirty:
-        print('refusing: /repo has uncommitted changes:\n' + dirty)
-        return 2
+    ids = args or sorted(d for d in os.listdir(os.path.join(V, 'seeded')) if os.path.isdir(os.path.join(V, 'seeded', d)))
     resp = os.path.join(V, 'seeded', 'RESULTS.json')
     results = json.load(open(resp)) if os.path.exists(resp) else {}
-    for sid in ids:
-        d = os.path.join(V, 'seeded', sid)
-        patch = os.path.join(d, 'patch.diff')
-        if not os.path.exists(patch):
-            continue
-        r = sh('git -C /repo apply %s' % patch)
+    env = dict(os.environ)
+    if in_place:
+        repo = '/repo'
+        dirty = sh('git -C /repo status --porcelain --untracked-files=no').stdout.strip()
+        if dirty:
+            print('refusing: /repo has uncommitted changes:\n' + dirty)
+            return 2
+    else:
+        repo = tempfile.mkdtemp(prefix='spxseed.', dir='/tmp')
+        os.rmdir(repo)
+        r = sh('git -C /repo worktree add --detach %s HEAD -q' % repo)
         if r.returncode != 0:
-            print(sid, 'patch does not apply:', r.stderr.strip()[:200])
-            results[sid] = {'applies': False}
-            continue
-        try:
-            fired = {}
-            broken = {}
-            for pid, cmd in checks:
-                c = sh(cmd, cwd=V)
-                if c.returncode == 1:
-                    fired[pid] = [l.strip() for l in c.stdout.splitlines() if l.strip().startswith('violated:')][:4]
-                elif c.returncode != 0:
-                    broken[pid] = [l for l in c.stdout.splitlines() if 'ANALYSIS-BROKEN' in l][:2]
-        finally:
-            sh('git -C /repo checkout -- .')
-        results[sid] = {'applies': True, 'caught_by': sorted(fired), 'reports': fired, 'analysis_broken': broken}
-        mp = os.path.join(d, 'meta.json')
-        if os.path.exists(mp):
-            m = json.load(open(mp))
-            m['caught_by'] = sorted(fired)
-            m['reports'] = fired
-            json.dump(m, open(mp, 'w'), indent=1)
-        print(sid, 'caught by', sorted(fired) or 'NOTHING', ('(analysis broken in %s)' % sorted(broken)) if broken else '')
-        for pid, ls in fired.items():
-            for l in ls[:2]:
-                print('    ', pid, l[:220])
-    json.dump(results, open(resp, 'w'), indent=1)
-    # restore evidence of the unchanged tree
-    for pid, cmd in checks:
-        sh(cmd, cwd=V)
+            print('cannot create scratch worktree:', r.stderr)
+            return 2
+        os.makedirs(os.path.join(repo, '_build', 'soplex'))
+        shutil.copy('/repo/_build/soplex/config.h', os.path.join(repo, '_build', 'soplex', 'config.h'))
+        # generated, untracked source that the build drops next to the sources
+        if os.path.exists('/repo/src/soplex/git_hash.cpp'):
+            shutil.copy('/repo/src/soplex/git_hash.cpp', os.path.join(repo, 'src', 'soplex', 'git_hash.cpp'))
+        env['SPX_REPO'] = repo
+        env['SPX_EVIDENCE_DIR'] = tempfile.mkdtemp(prefix='spxseed-ev.', dir='/tmp')
+    try:
+        for sid in ids:
+            d = os.path.join(V, 'seeded', sid)
+            patch = os.path.join(d, 'patch.diff')
+            if not os.path.exists(patch):
+                continue
+            r = sh('git -C %s apply %s' % (repo, patch))
+            if r.returncode != 0:
+                print(sid, 'patch does not apply to the current HEAD:', r.stderr.strip()[:160])
+                results[sid] = {'applies': False}
+                continue
+            try:
+                fired, broken = {}, {}
+                for pid, cmd in checks:
+                    c = sh(cmd, cwd=V, env=env)
+                    if c.returncode == 1:
+                        fired[pid] = [l.strip().replace(repo, '/repo') for l in c.stdout.splitlines() if l.strip().startswith('violated:')][:4]
+                    elif c.returncode != 0:
+                        broken[pid] = [l for l in c.stdout.splitlines() if 'ANALYSIS-BROKEN' in l][:2]
+            finally:
+                sh('git -C %s checkout -- .' % repo)
+            results[sid] = {'applies': True, 'caught_by': sorted(fired), 'reports': fired, 'analysis_broken': broken}
+            mp = os.path.join(d, 'meta.json')
+            if os.path.exists(mp):
+                m = json.load(open(mp))
+                m['caught_by'] = sorted(fired)
+                m['reports'] = fired
+                json.dump(m, open(mp, 'w'), indent=1)
+            print(sid, 'caught by', sorted(fired) or 'NOTHING', ('(analysis broken in %s)' % sorted(broken)) if broken else '')
+            for pid, ls in fired.items():
+                for l in ls[:1]:
+                    print('    ', pid, l[:200])
+            json.dump(results, open(resp, 'w'), indent=1, sort_keys=True)
+    finally:
+        if not in_place:
+            sh('git -C /repo worktree remove --force %s' % repo)
+            shutil.rmtree(repo, ignore_errors=True)
+            shutil.rmtree(env['SPX_EVIDENCE_DIR'], ignore_errors=True)
     return 0
 
 
